@@ -67,6 +67,26 @@ class NoRepr:
     def __eq__(self, o): return (o.i == self.i) if isinstance(o, NoRepr) else NotImplemented
     def __hash__(self): return self.i
 
+class Outer:
+    class Tok:
+        def __init__(self, i): self.i = i
+        def __repr__(self): return f"<tok {self.i}>"
+        def __eq__(self, o): return (o.i == self.i) if isinstance(o, Outer.Tok) else NotImplemented
+        def __hash__(self): return self.i
+
+    class Col(Enum):
+        A = 1
+        B = 2
+
+    @dataclass
+    class Rec:
+        x: int
+        y: str = "y"
+        def __hash__(self): return self.x
+
+    class Kind:
+        pass
+
 R = []
 '''
 
@@ -80,7 +100,9 @@ def atom(rng, hashable=False, orderable=None):
             ("1e100", "float"), ("'s'", "str"), ("'it''s'", "str"), ("'multi\\nline\\ntext'", "str"), ("'  pad  '", "str"),
             ("b'by\\x00te'", "bytes"), ("Color.RED", "enum"), ("Perm.R | Perm.X", "flag"), ("Perm.W", "flag"), ("Plain", "type"), ("int", "type"),
             ("NoRepr(3)", "hasrepr"), ("NT(1)", "namedtuple"), ("NT(2, 'z')", "namedtuple"), ("NT2(1, 2)", "namedtuple"),
-            ("DC(1)", "dataclass"), ("DC(2, 'y')", "dataclass"), ("2+3j", "complex"), ("-1j", "complex"), ("float('inf')", "inf"), ("-float('inf')", "inf")]
+            ("DC(1)", "dataclass"), ("DC(2, 'y')", "dataclass"), ("2+3j", "complex"), ("-1j", "complex"), ("float('inf')", "inf"), ("-float('inf')", "inf"),
+            ("Outer.Tok(1)", "nested_hasrepr"), ("Outer.Col.B", "nested_enum"), ("Outer.Rec(1)", "nested_dataclass"),
+            ("Outer.Rec(2, 'z')", "nested_dataclass"), ("Outer.Kind", "nested_type")]
     if not hashable:
         opts += [("DC(3, c=[1, 2])", "dataclass"), ("AT(4)", "attrs"), ("AT(5, [6])", "attrs"), ("PM(s=1)", "pydantic"),
                  ("PM(s=2, t='u')", "pydantic"), ("defaultdict(list, {1: [2]})", "defaultdict"), ("defaultdict(int)", "defaultdict")]
